@@ -7,6 +7,7 @@ package local
 
 import (
 	"bufio"
+	"context"
 	"encoding/hex"
 	"fmt"
 	"net"
@@ -16,7 +17,9 @@ import (
 	"testing"
 	"time"
 
+	"github.com/veesix-networks/osvbng/pkg/allocator"
 	"github.com/veesix-networks/osvbng/pkg/config"
+	ipcfg "github.com/veesix-networks/osvbng/pkg/config/ip"
 	"github.com/veesix-networks/osvbng/pkg/dhcp"
 	dhcp6msg "github.com/veesix-networks/osvbng/pkg/dhcp6"
 )
@@ -90,6 +93,10 @@ func c19Msg(m *dhcp6msg.Message) string {
 		c19ShowN(o.ClientID), c19ShowN(o.ServerID), na, pd, dns, st)
 }
 
+func c19Str(t string) string {
+	return string(c19Hex(strings.SplitN(t, "/", 2)[0]))
+}
+
 func c19Case(f []string) (out string) {
 	defer func() {
 		if r := recover(); r != nil {
@@ -97,6 +104,62 @@ func c19Case(f []string) (out string) {
 		}
 	}()
 	switch f[0] {
+	case "solicit6":
+		// solicit6 serverduid clientmsg addr prefix ones nctxdns dns.. ppref pvalid npdns dns.. nia {cidr pref valid nopts {code,enc,val/..}..}.. npd {cidr pref valid}..
+		// pkg/dhcp.ResolveV6 (address / prefix already chosen, no registry) then the real Provider.HandlePacket on a fresh provider
+		allocator.ResetGlobalRegistry()
+		ctx := &allocator.Context{IPv6Address: c19IP(f[3])}
+		if f[4] != "nil" {
+			ctx.IPv6Prefix = &net.IPNet{IP: c19IP(f[4]), Mask: net.CIDRMask(int(c19U(f[5])), 128)}
+		}
+		k := 6
+		n := int(c19U(f[k]))
+		k++
+		for i := 0; i < n; i++ {
+			ctx.DNSv6 = append(ctx.DNSv6, c19IP(f[k]))
+			k++
+		}
+		prof := &ipcfg.IPv6Profile{DHCPv6: &ipcfg.IPv6DHCPv6Options{PreferredTime: uint32(c19U(f[k])), ValidTime: uint32(c19U(f[k+1]))}}
+		k += 2
+		n = int(c19U(f[k]))
+		k++
+		for i := 0; i < n; i++ {
+			prof.DNS = append(prof.DNS, c19Str(f[k]))
+			k++
+		}
+		n = int(c19U(f[k]))
+		k++
+		for i := 0; i < n; i++ {
+			pool := ipcfg.IANAPool{Network: c19Str(f[k]), PreferredTime: uint32(c19U(f[k+1])), ValidTime: uint32(c19U(f[k+2]))}
+			no := int(c19U(f[k+3]))
+			k += 4
+			for j := 0; j < no; j++ {
+				q := strings.SplitN(strings.SplitN(f[k], "/", 2)[0], ",", 3)
+				pool.Options = append(pool.Options, ipcfg.DHCPv6Option{Code: uint16(c19U(q[0])), Encoding: string(c19Hex(q[1])), Value: string(c19Hex(q[2]))})
+				k++
+			}
+			prof.IANAPools = append(prof.IANAPools, pool)
+		}
+		n = int(c19U(f[k]))
+		k++
+		for i := 0; i < n; i++ {
+			prof.PDPools = append(prof.PDPools, ipcfg.PDPool{Network: c19Str(f[k]), PreferredTime: uint32(c19U(f[k+1])), ValidTime: uint32(c19U(f[k+2]))})
+			k += 3
+		}
+		res := dhcp.ResolveV6(ctx, prof)
+		if res == nil {
+			return "noresolve"
+		}
+		p := &Provider{coreConfig: &config.Config{}, serverDUID: c19Hex(f[1]),
+			ianaPools: map[string]*IANAPool{}, pdPools: map[string]*PDPool{},
+			ianaLeases: map[string]*IANALease{}, pdLeases: map[string]*PDLease{},
+			leasesByAddr: map[string]*IANALease{}, leasesByPfx: map[string]*PDLease{}}
+		resp, err := p.HandlePacket(context.Background(), &dhcp6msg.Packet{SessionID: "s1", Raw: c19Hex(f[2]), Resolved: res})
+		if err != nil || resp == nil {
+			return "noresp"
+		}
+		m, _ := dhcp6msg.ParseMessage(resp.Raw)
+		return c19Show(resp.Raw) + " ; " + c19Msg(m)
 	case "resp6":
 		// resp6 type txid client server iana pd ndns dns.. nextras extras..
 		p := &Provider{coreConfig: &config.Config{}, serverDUID: c19Hex(f[4])}
